@@ -3,8 +3,8 @@ SPEC = {
     'engine': 'tp', 'harness': 'tp.cpp',
     'repo_srcs': ['N2kMsg.cpp', 'N2kStream.cpp', 'N2kMessages.cpp', 'N2kTimer.cpp', 'N2kGroupFunction.cpp', 'N2kGroupFunctionDefaultHandlers.cpp', 'NMEA2000.cpp'],
     'variants': ['', 't32'],
-    'lean_modules': ['N2k.Props.C10'], 'props_files': ['N2k/Props/C10.lean'],
-    'translators': ['pgn_tables'],
+    'lean_modules': ['N2k.Props.Consts.C10', 'N2k.Props.C10'], 'props_files': ['N2k/Props/Consts/C10.lean', 'N2k/Props/C10.lean'],
+    'translators': ['constants', 'pgn_tables'],
     'case_start': ['reset'],
     'oracle_prefixes': ['C10:', 'C07:tp-'],
     'trusted_base': ["frozen specification lean/N2k/Spec/IsoTp.lean (J1939-21 TP.CM/TP.DT wire format, reference reassembly) and "
